@@ -43,6 +43,6 @@ LEVEL_TEXT = ("CrossHair drives a really parsed chart (deep-copied per path) thr
 LEVEL_NOTE = "One fixed small chart (2 tracks); operation sequences of length 1 (quick) / 2 (thorough). Trusted: S1, S3, S4; copy.deepcopy reproduces the parsed object graph."
 TECHNIQUE = CH_TECH
 EXPLANATION = "see obligation_table"
-BOUNDS = "operation sequences of length <=1 (quick) / <=2 (thorough); all instruments in thorough"
+BOUNDS = "operation sequences of length <=1 (quick) / <=2 (thorough); all instruments in thorough; 5 chart variants (default, empty selection, one selected track, Player2=rhythm with bass only, 600-note track)"
 OUTSIDE = "longer sequences; charts of other shapes"
 ASSUMPTIONS = [S1, S3, S4]
